@@ -184,9 +184,7 @@ def full_id(case_id, failure):
 _MOD = None
 
 
-def _eval_one(args):
-    case_id, params = args
-    t0 = time.time()
+def _evaluate_guarded(params):
     try:
         out = _MOD.evaluate(params)
         if not isinstance(out, Out):
@@ -194,6 +192,23 @@ def _eval_one(args):
     except Exception:
         out = Out()
         out.check("no_exception", False, detail=traceback.format_exc()[-1500:])
+    return out
+
+
+def _eval_one(args, force_isolated=False):
+    """Evaluate one case. With ISOLATE_CASES (or force_isolated) the case runs in a forked child of
+    this process, so nothing an earlier case left behind in the library can influence it."""
+    case_id, params = args
+    t0 = time.time()
+    if force_isolated or getattr(_MOD, "ISOLATE_CASES", False):
+        from .isolate import isolated
+        try:
+            out = isolated(_evaluate_guarded, params)
+        except Exception:
+            out = Out()
+            out.check("no_exception", False, detail=traceback.format_exc()[-1500:])
+    else:
+        out = _evaluate_guarded(params)
     return case_id, out, time.time() - t0
 
 
@@ -275,7 +290,12 @@ def run_check(prop, tier, seed, replay=None, only=None, jobs=None, verbose=False
         if case_id in rechecked or case_id == "__finalize__" or len(rechecked) >= 10:
             continue
         rechecked.add(case_id)
-        _, again, _ = _eval_one((case_id, by_id[case_id].params))
+        try:
+            # in a forked child of this (library-wise pristine) process
+            _, again, _ = _eval_one((case_id, by_id[case_id].params),
+                                    force_isolated=getattr(mod, "PARALLEL", True))
+        except Exception:
+            continue
         a = sorted(full_id(case_id, x) for x in results[case_id].failures)
         b = sorted(full_id(case_id, x) for x in again.failures)
         if a != b:
@@ -380,8 +400,11 @@ def run_check(prop, tier, seed, replay=None, only=None, jobs=None, verbose=False
         for k, v in sorted(total.stats.items()):
             print("   stat   %-34s %d" % (k, v))
     if diverged:
-        print("HARNESS-ERROR non-deterministic verdict on re-run: %s" % (diverged[:3],))
-        return 2
+        # The failing ids of a case differ between the worker that ran it and a fresh process.  The harness
+        # owns its own nondeterminism (no clocks, no sampling), so this means the library's answer depends on
+        # what ran earlier in the same process - hidden state, itself a defect; the violations stand.
+        print("NOTE verdict of %d case(s) depends on process history (hidden state in the library?): %s"
+              % (len(diverged), [d[0] for d in diverged[:3]]))
     return 1 if violations else 0
 
 
